@@ -569,6 +569,8 @@ class Machine:
             return [r]
         if t == "snapp":
             return tokens(tree(p[op[1]], prune=True))
+        if t == "view":
+            return view_obs(self, p[op[1]], op[2], op[3], op[4])
         if t == "clone":
             import pickle
             src = p[op[1]]
@@ -646,6 +648,37 @@ def fixed_children(h):
     if n in ("Index", "Branch"):
         return list(d["values"])
     return []
+
+
+def _flist(xs):
+    out = [len(xs)]
+    for x in xs:
+        out += ftok(float(x))
+    return out
+
+
+def view_obs(m, h, lo, hi, xs):
+    """the derived views of a binning primitive for the sub-range (lo, hi) (None = open) and the
+    probe values xs, as tokens; what was returned is also kept for the oracle"""
+    rec = {"lo": lo, "hi": hi, "xs": xs}
+    if not hasattr(m, "viewlog"):
+        m.viewlog = []
+    m.viewlog.append(rec)
+    out = []
+    for name, call in (("num_bins", lambda: h.num_bins(lo, hi)),
+                       ("bin_edges", lambda: h.bin_edges(lo, hi)),
+                       ("bin_centers", lambda: h.bin_centers(lo, hi)),
+                       ("bin_entries", lambda: h.bin_entries(lo, hi)),
+                       ("entries_at", lambda: h.bin_entries(xvalues=list(xs)) if xs else [])):
+        try:
+            v = call()
+            rec[name] = int(v) if name == "num_bins" else [float(x) for x in v]
+            out += [0] + ([rec[name]] if name == "num_bins" else _flist(rec[name]))
+        except Exception as e:  # noqa: BLE001
+            m.exc.append(exc_class(e))
+            rec[name] = "raised %s: %s" % (type(e).__name__, str(e)[:80])
+            out += [1]
+    return out
 
 
 def columns(rows):
